@@ -146,6 +146,13 @@ def check_case(case):
         r.require(m.shape == (len(rot), 2) and bool(np.all(m[:, 0] == np.arange(len(rot)))), key + ":shape", "one row per symmetry operation, first column its index")
         ref = np.array([ang(U1.T @ U2 @ rot[j].T) for j in range(len(rot))])
         r.check("angle", float(np.max(np.abs(m[:, 1] - ref))), 1e-4, key + ":angle", "Umis[k,1] = rotation angle of U1'.U2.rot[k]'", ref, m[:, 1])
+        # conditioning-aware: the angle comes from an arccos of (trace-1)/2, accurate to ~1e-15/sin(angle) rad, and to sqrt(2e-15) rad at 0 / 180 deg;
+        # single-precision storage or arithmetic (6e-8 relative) is 5 decades above that for mid-range angles
+        sn = np.sin(np.radians(ref))
+        lim = np.degrees(np.minimum(4.5e-7, 1e-13 / np.maximum(sn, 1e-300))) + 1e-11
+        worst = float(np.max(np.abs(m[:, 1] - ref) / lim))
+        r.check("angle/conditioned-limit", worst, 1.0, key + ":angle-precision", "Umis angles are accurate to double precision (limit scaled by 1/sin(angle))", None,
+                {"angles": m[:, 1].tolist(), "ref": ref.tolist()} if worst > 1 else None)
         r.require(bool(np.all((m[:, 1] >= 0) & (m[:, 1] <= 180))), key + ":range", "angles in [0,180]")
         base = np.sort(m[:, 1])
         for j in range(len(rot)):
